@@ -181,6 +181,17 @@ let eval (op : string) (a : string list) : string =
      | PartsErr c -> "err:" ^ zs c
      | PartsOk [] -> "ok:."
      | PartsOk l -> "ok:" ^ fpartitions l)
+  | "addr", [api; req; cl] ->
+    (* the clusters are "a" and "b"; "-" = no address.  The transport of the model answers
+       with the name of the cluster asked; APIs the fake clusters implement report whose
+       state they returned, the others only who was asked. *)
+    let o s = if s = "-" then None else Some s in
+    let stateful = List.mem api ["ListOffsets"; "Metadata"; "OffsetFetch"; "OffsetCommit"; "ConsumerOffsets"] in
+    (match client_round_trip (fun a () -> a) (o req) (o cl) () with
+     | None -> "err"
+     | Some a ->
+       if effective_addr (o req) (o cl) <> Some a then "SPECDIFF"
+       else a ^ "/" ^ (if stateful then a else "-"))
   | "of", [ulist; th; err; ts] ->
     let u = plist ';' (ptopic '+' zp) ulist in
     let q = (match offsetfetch_request u with
